@@ -342,7 +342,7 @@ def r57_dependency_contract(facts, families=("ewise", "matmul", "conv", "reduce"
             n += 1
             j = _Judge(c, "deps:%s" % b["def"], _where(b), "matmul")
             cases = []
-            for (m_, k_, n_) in ((2, 3, 2), (1, 2, 3), (3, 2, 4), (2, 2, 2)):
+            for (m_, k_, n_) in ((2, 3, 2), (1, 2, 3), (3, 2, 4), (2, 2, 2), (2, 1, 2), (3, 1, 2), (1, 3, 1), (2, 2, 1)):
                 cases.append(([], [m_, k_], [], [k_, n_]))
             cases.append(([2], [2, 3], [2], [3, 2]))
             cases.append(([2], [2, 2], [1], [2, 3]))
@@ -381,7 +381,8 @@ def r57_dependency_contract(facts, families=("ewise", "matmul", "conv", "reduce"
             j = _Judge(c, "deps:%s" % b["def"], _where(b), "conv")
             for (d, r_, c_), (fn_, fr, fc), (sr, sc) in ((([1, 3, 3]), (1, 2, 2), (1, 1)), ([2, 2, 3], (1, 2, 2), (1, 1)), ([1, 3, 5], (1, 2, 2), (1, 2)), ([1, 4, 4], (2, 2, 2), (2, 2)),
                                                         ([2, 3, 3], (2, 1, 1), (1, 1)), ([1, 3, 4], (1, 2, 3), (1, 1)), ([1, 5, 3], (1, 2, 2), (2, 1)), ([2, 4, 5], (2, 3, 2), (1, 3)),
-                                                        ([1, 4, 5], (1, 2, 2), (2, 2)), ([2, 5, 5], (1, 2, 2), (2, 2)), ([2, 3, 5], (1, 1, 2), (1, 2)), ([1, 2, 2], (2, 2, 2), (1, 1))):
+                                                        ([1, 4, 5], (1, 2, 2), (2, 2)), ([2, 5, 5], (1, 2, 2), (2, 2)), ([2, 3, 5], (1, 1, 2), (1, 2)), ([1, 2, 2], (2, 2, 2), (1, 1)),
+                                                        ([2, 3, 2], (2, 2, 2), (1, 1)), ([1, 4, 3], (1, 2, 2), (1, 1)), ([1, 4, 4], (1, 3, 3), (1, 1)), ([1, 5, 5], (1, 2, 2), (3, 3))):
                 im, fi = _operand(1, [d, r_, c_]), _operand(2, [fn_, d, fr, fc])
 
                 def spec(q, od, im=im, fi=fi, d=d, fr=fr, fc=fc, sr=sr, sc=sc):
